@@ -49,7 +49,9 @@ func Encode(g graph.Graph) Graph {
 		it := g.From(uid)
 		for it.Next() {
 			vid := it.Node().ID()
-			if vid < uid {
+			if vid <= uid {
+				// Each edge is set once, from its lower end; a
+				// self loop has no bit in the graph6 format.
 				continue
 			}
 			j := indexOf[vid]
